@@ -95,7 +95,7 @@ impl Engine for C05 {
                 "the reference execution uses the natural threshold only; both executions are real schedules of the real collector",
             ],
             shrink: vec!["/ops"],
-            quick: (8000, 150),
+            quick: (14000, 150),
             thorough: (600000, 1100),
         }
     }
